@@ -383,12 +383,56 @@ func evalC10(c c10Case, o *Obs) error {
 		}
 	}
 	// lower bound: least fixpoint over exact sets
+	relevant, direct := exactRelevant(c.Flags, txs, items)
+	posOf := make([]int, len(txs))
+	for pos, pi := range perm {
+		posOf[pi] = pos
+	}
+	for i := range txs {
+		if !relevant[i] {
+			continue
+		}
+		if !direct[i] {
+			o.Class("C10:relevant-only-through-another-block-tx")
+			o.NT()
+			// is the spender placed before its funding transaction?
+			for _, in := range txs[i].msg.TxIn {
+				for j := range txs {
+					if txs[j].hash == in.PreviousOutPoint.Hash && posOf[i] < posOf[j] {
+						o.Class("C10:spender-before-funder")
+					}
+				}
+			}
+		}
+		if !R[posOf[i]] {
+			return fmt.Errorf("GetMatchedIndices (order %v, flags %d) misses position %d: tx %v is relevant to the loaded filter "+
+				"(directly relevant: %v) but was not reported; reported %v", perm, c.Flags, posOf[i], txs[i].hash, direct[i], sortedKeys(R))
+		}
+	}
+	o.Class("C10:perm=" + c.PermTag)
+	// the merkle-block builders report the same set, ascending
+	want := sortedKeys(R)
+	f2, _ := c10Filter(c, items)
+	_, idx2 := bloom.NewMerkleBlock(bchutil.NewBlock(blk), f2)
+	f3, _ := c10Filter(c, items)
+	_, idx3 := merkleblock.NewMerkleBlockWithFilter(bchutil.NewBlock(blk), f3)
+	if !u32Equal(idx2, want) || !u32Equal(idx3, want) {
+		return fmt.Errorf("matched index lists differ: GetMatchedIndices %v, bloom.NewMerkleBlock %v, merkleblock.NewMerkleBlockWithFilter %v", want, idx2, idx3)
+	}
+	return nil
+}
+
+// exactRelevant computes, with exact sets instead of bits, which transactions are relevant to
+// the loaded filter: the least fixpoint of "txid, an output push, a spent outpoint or an input push is
+// in the set; matching outputs add their outpoint as the update flag prescribes".  direct[i] is
+// relevance w.r.t. the initial set alone.  Independent of the order of the transactions.
+func exactRelevant(flags byte, txs []*builtTx, items [][]byte) (relevant, direct []bool) {
 	set := map[string]bool{}
 	for _, it := range items {
 		set[string(it)] = true
 	}
-	relevant := make([]bool, len(txs))
-	direct := make([]bool, len(txs))
+	relevant = make([]bool, len(txs))
+	direct = make([]bool, len(txs))
 	rel := func(b *builtTx) bool {
 		if set[string(b.hash[:])] {
 			return true
@@ -432,7 +476,7 @@ func evalC10(c c10Case, o *Obs) error {
 						hit = true
 					}
 				}
-				if hit && shouldUpdate(c.Flags, b.outCls[oi]) {
+				if hit && shouldUpdate(flags, b.outCls[oi]) {
 					k := string(outpointBytes(b.hash[:], uint32(oi)))
 					if !set[k] {
 						set[k] = true
@@ -442,42 +486,7 @@ func evalC10(c c10Case, o *Obs) error {
 			}
 		}
 	}
-	posOf := make([]int, len(txs))
-	for pos, pi := range perm {
-		posOf[pi] = pos
-	}
-	for i := range txs {
-		if !relevant[i] {
-			continue
-		}
-		if !direct[i] {
-			o.Class("C10:relevant-only-through-another-block-tx")
-			o.NT()
-			// is the spender placed before its funding transaction?
-			for _, in := range txs[i].msg.TxIn {
-				for j := range txs {
-					if txs[j].hash == in.PreviousOutPoint.Hash && posOf[i] < posOf[j] {
-						o.Class("C10:spender-before-funder")
-					}
-				}
-			}
-		}
-		if !R[posOf[i]] {
-			return fmt.Errorf("GetMatchedIndices (order %v, flags %d) misses position %d: tx %v is relevant to the loaded filter "+
-				"(directly relevant: %v) but was not reported; reported %v", perm, c.Flags, posOf[i], txs[i].hash, direct[i], sortedKeys(R))
-		}
-	}
-	o.Class("C10:perm=" + c.PermTag)
-	// the merkle-block builders report the same set, ascending
-	want := sortedKeys(R)
-	f2, _ := c10Filter(c, items)
-	_, idx2 := bloom.NewMerkleBlock(bchutil.NewBlock(blk), f2)
-	f3, _ := c10Filter(c, items)
-	_, idx3 := merkleblock.NewMerkleBlockWithFilter(bchutil.NewBlock(blk), f3)
-	if !u32Equal(idx2, want) || !u32Equal(idx3, want) {
-		return fmt.Errorf("matched index lists differ: GetMatchedIndices %v, bloom.NewMerkleBlock %v, merkleblock.NewMerkleBlockWithFilter %v", want, idx2, idx3)
-	}
-	return nil
+	return
 }
 
 func sortedKeys(m map[int]bool) []uint32 {
@@ -569,10 +578,13 @@ func genC10(t *rapid.T) c10Case {
 	for ti := 0; ti < ntx; ti++ {
 		var tx c10Tx
 		tx.LockTime = uint32(ti)
-		nin := rapid.IntRange(1, 3).Draw(t, "nin")
+		nin := rapid.IntRange(1, 4).Draw(t, "nin")
 		for i := 0; i < nin; i++ {
 			in := c10In{Script: genScriptSpec(t, len(c.Pool), true)}
-			if ti > 0 && rapid.IntRange(0, 2).Draw(t, "internal") > 0 {
+			if ti > 0 && i > 0 && tx.Ins[i-1].Src >= 0 && rapid.IntRange(0, 2).Draw(t, "sameparent") == 0 {
+				in.Src = tx.Ins[i-1].Src // another output of the same parent
+				in.Out = tx.Ins[i-1].Out + 1
+			} else if ti > 0 && rapid.IntRange(0, 2).Draw(t, "internal") > 0 {
 				in.Src = rapid.IntRange(0, ti-1).Draw(t, "src")
 				in.Out = uint32(rapid.IntRange(0, 3).Draw(t, "srcout"))
 			} else {
@@ -658,7 +670,7 @@ func TestC10(t *testing.T) {
 		if len(ev.harnessErrors) > 0 {
 			return
 		}
-		kC10.Run(t, ev, perShard(pick(3000, 1500000)))
+		kC10.Run(t, ev, perShard(pick(6000, 1500000)))
 		ev.requireClasses("C10:out-class=pubkey", "C10:out-class=multisig", "C10:out-class=pubkeyhash", "C10:out-class=scripthash",
 			"C10:out-class=nulldata", "C10:out-class=nonstandard", "C10:tx-reason=txid", "C10:tx-reason=output-push",
 			"C10:tx-reason=spent-outpoint", "C10:tx-reason=input-push", "C10:tx-reason=updated",
